@@ -38,6 +38,12 @@ theorem readNameLoop_terminates (buf : Bytes) (fuel pos : Nat) (labels : List La
 /-- `readMessage`: header, then as many questions and records as the counts announce, each read safely -/
 theorem readMessage_no_panic (buf : Bytes) : (readMessage buf).Safe := readMessage_safe buf
 
+/-- the message reader terminates on every buffer: `readName`'s fuel never runs out and the section loops
+run as often as the 16-bit counts say -/
+theorem readMessage_terminates (buf : Bytes) : readMessage buf ≠ .hang := (readMessage_safe buf).2
+
+theorem decodeTXT_terminates (p : Bytes) : decodeTXT p ≠ .hang := (decodeTXTLoop_safe p []).2
+
 /-- `MessageFromWireFormat` on arbitrary bytes -/
 theorem messageFromWireFormat_no_panic (buf : Bytes) : (messageFromWireFormat buf).Safe :=
   messageFromWireFormat_safe buf
@@ -222,20 +228,21 @@ theorem parseRegMessage_no_panic (m : ZmqMsg) (hc : m.consistent) (e4 e6 b4 b6 :
         exact (hnew b4 hp).bind fun _ => .ok _
       · exact .ok _
     refine h4.bind fun r4 => ?_
-    split
-    · exact .ok _
-    · have h6 : (if m.v6Support = true ∧ e6 = true then
-          (newRegistrationC2SWrapper m b6).bind fun ok => Outcome.ok (some ok) else Outcome.ok none).Safe := by
-        split
-        · rename_i h
-          have hp : m.hasPayload = true := by
-            cases hh : m.hasPayload with
-            | true => rfl
-            | false => have := (hc hh).2; rw [this] at h; simp at h
-          exact (hnew b6 hp).bind fun _ => .ok _
-        · exact .ok _
-      refine h6.bind fun r6 => ?_
-      split <;> exact .ok _
+    have h6 : (if m.v6Support = true ∧ e6 = true then
+        (newRegistrationC2SWrapper m b6).bind fun ok => Outcome.ok (some ok) else Outcome.ok none).Safe := by
+      split
+      · rename_i h
+        have hp : m.hasPayload = true := by
+          cases hh : m.hasPayload with
+          | true => rfl
+          | false => have := (hc hh).2; rw [this] at h; simp at h
+        exact (hnew b6 hp).bind fun _ => .ok _
+      · exact .ok _
+    refine h6.bind fun r6 => ?_
+    by_cases hb : ((if r4 = some true then 1 else 0) + (if r6 = some true then 1 else 0) = 0 ∧
+        (r4 = some false ∨ r6 = some false))
+    · rw [if_pos hb]; exact .ok _
+    · rw [if_neg hb]; exact .ok _
 
 /-- tie 1: every field access through a protobuf sub-message pointer that the extractor finds in the
 entry-point files of the tree is guarded by a nil check -/
